@@ -118,8 +118,13 @@ def op_gen_calls(job):
                                   'info_cols': np.atleast_1d(rec['duplicate_indices']).astype(int).tolist(), 'info_sel': np.atleast_1d(rec['feature_indices']).astype(int).tolist()})
                 else:
                     kind = call.get('kind', 'linear')
-                    X = g.generate_combinations(X, call['sel'], combination_type=kind)
-                    want = src.sum(axis=1) if kind == 'linear' else np.sin(src.sum(axis=1))
+                    if kind in ('xor', 'and', 'or'):
+                        # the class's own bitwise combination helpers, passed as the custom combination function
+                        X = g.generate_combinations(X, call['sel'], combination_function=getattr(g, '_' + kind))
+                        want = getattr(np, 'bitwise_' + kind).reduce(src.astype(np.int64), axis=1)
+                    else:
+                        X = g.generate_combinations(X, call['sel'], combination_type=kind)
+                        want = src.sum(axis=1) if kind == 'linear' else np.sin(src.sum(axis=1))
                     rec = g.dataset_info['combinations'][-1]
                     steps.append({'op': 'combine', 'added': X.shape[1] - before, 'equal': bool(np.allclose(np.array(X[:, before], dtype=float), want, rtol=0, atol=1e-12)),
                                   'info_cols': [int(rec['combination_ix'])], 'info_sel': [int(v) for v in rec['feature_indices']], 'info_kind': rec['combination_type']})
